@@ -10,6 +10,7 @@
 import PandoraModel.Properties.C13Run
 import PandoraModel.Properties.C13PipelineCbca
 import Mathlib.Algebra.Order.Field.Basic
+import Mathlib.Data.Rat.Floor
 
 namespace Pandora.C13
 open Pandora Pandora.Locality Pandora.MC
@@ -163,6 +164,114 @@ theorem costRows_cbca (K : RunCfg) (G : AggCfg) (x : MC.Input) (hx : McOK x) (hN
   rw [map_toImg, map_toImg]
   rfl
 
+/-! ### C11's hypothesis `nanOutside` is a theorem about the matching-cost model -/
+
+theorem iRight_of_dvd (sp : Nat) (hs : 0 < sp) (k : Int) (h : k % (sp : Int) = 0) :
+    Cbca.iRight sp ((k : ℚ) / ((sp : Int) : ℚ)) = 0 := by
+  have hsQ : ((sp : Int) : ℚ) ≠ 0 := by
+    have : (0 : ℚ) < ((sp : Int) : ℚ) := by exact_mod_cast hs
+    exact ne_of_gt this
+  obtain ⟨m, hm⟩ : ∃ m : Int, k = m * (sp : Int) := ⟨k / (sp : Int), by
+    have := Int.emod_add_mul_ediv k (sp : Int)
+    rw [h, Int.zero_add, Int.mul_comm] at this
+    exact this.symm⟩
+  have hd : (k : ℚ) / ((sp : Int) : ℚ) = (m : ℚ) := by
+    rw [hm]; push_cast; field_simp
+  unfold Cbca.iRight
+  rw [hd]
+  have : ((m : ℚ)).floor = m := by
+    show ⌊(m : ℚ)⌋ = m
+    exact Int.floor_intCast m
+  rw [this]
+  have e : ((m : ℚ) - ((m : Int) : ℚ)) * (sp : ℚ) = 0 := by simp
+  rw [e]
+  have : (0 : ℚ).floor = 0 := by
+    show ⌊(0 : ℚ)⌋ = 0
+    exact Int.floor_zero
+  rw [this]
+  rfl
+
+/-- the facing right column exists as soon as the right window(s) of the matching cost lie in the right image -/
+theorem rightCol_isSome_of_rightInside (sp : Nat) (hs : 0 < sp) (k : Int) (xa o W : Nat)
+    (h1 : (o : Int) ≤ ((xa + o : Nat) : Int) + k / (sp : Int))
+    (h2 : ((xa + o : Nat) : Int) + k / (sp : Int) + (o : Int) + fracBit k sp < (W : Int)) :
+    (Cbca.rightCol ((k : ℚ) / ((sp : Int) : ℚ))
+      ((if Cbca.iRight sp ((k : ℚ) / ((sp : Int) : ℚ)) = 0 then W else W - 1) - 2 * o) xa).isSome = true := by
+  have hfl : ((k : ℚ) / ((sp : Int) : ℚ)).floor = k / (sp : Int) := by
+    show ⌊(k : ℚ) / ((sp : Int) : ℚ)⌋ = k / (sp : Int)
+    have := Rat.floor_intCast_div_natCast k sp
+    simpa using this
+  have hle : (((k / (sp : Int) : Int)) : ℚ) ≤ (k : ℚ) / ((sp : Int) : ℚ) := by
+    rw [← hfl]; exact Rat.floor_le _
+  have hlt : (k : ℚ) / ((sp : Int) : ℚ) < (((k / (sp : Int) : Int)) : ℚ) + 1 := by
+    have := Rat.lt_floor_add_one ((k : ℚ) / ((sp : Int) : ℚ))
+    rw [hfl] at this
+    exact_mod_cast this
+  generalize hd : (k : ℚ) / ((sp : Int) : ℚ) = d at *
+  generalize hD : k / (sp : Int) = D at *
+  unfold Cbca.rightCol
+  have h0 : (0 : ℚ) ≤ (xa : ℚ) + d := by
+    have : (0 : Int) ≤ (xa : Int) + D := by omega
+    have : (0 : ℚ) ≤ ((xa : Int) : ℚ) + (D : ℚ) := by exact_mod_cast this
+    push_cast at this
+    linarith
+  have hW : (xa : ℚ) + d < (((if Cbca.iRight sp d = 0 then W else W - 1) - 2 * o : Nat) : ℚ) := by
+    by_cases hk : k % (sp : Int) = 0
+    · have hi : Cbca.iRight sp d = 0 := by rw [← hd]; exact iRight_of_dvd sp hs k hk
+      have hf : fracBit k sp = 0 := by unfold fracBit; rw [if_pos hk]
+      rw [if_pos hi]
+      have hdD : d = (D : ℚ) := by
+        rw [← hd, ← hD]
+        have hsQ : ((sp : Int) : ℚ) ≠ 0 := by
+          have : (0 : ℚ) < ((sp : Int) : ℚ) := by exact_mod_cast hs
+          exact ne_of_gt this
+        have := Int.emod_add_mul_ediv k (sp : Int)
+        rw [hk, Int.zero_add] at this
+        rw [div_eq_iff hsQ]
+        have h5 : k = k / (sp : Int) * (sp : Int) := by rw [Int.mul_comm]; exact this.symm
+        exact_mod_cast h5
+      have : (xa : Int) + D < ((W - 2 * o : Nat) : Int) := by omega
+      have : ((xa : Int) : ℚ) + (D : ℚ) < (((W - 2 * o : Nat) : Int) : ℚ) := by exact_mod_cast this
+      push_cast at this ⊢
+      rw [hdD]
+      linarith
+    · have hf : fracBit k sp = 1 := by unfold fracBit; rw [if_neg hk]
+      have hge : W - 1 - 2 * o ≤ (if Cbca.iRight sp d = 0 then W else W - 1) - 2 * o := by split <;> omega
+      have : (xa : Int) + D + 1 ≤ ((W - 1 - 2 * o : Nat) : Int) := by omega
+      have h3 : ((xa : Int) : ℚ) + (D : ℚ) + 1 ≤ (((W - 1 - 2 * o : Nat) : Int) : ℚ) := by exact_mod_cast this
+      have h4 : (((W - 1 - 2 * o : Nat)) : ℚ) ≤ (((if Cbca.iRight sp d = 0 then W else W - 1) - 2 * o : Nat) : ℚ) := by
+        exact_mod_cast hge
+      push_cast at h3
+      linarith
+  simp only [h0, hW, and_self, if_true, Option.isSome_some]
+
+/-- **C11's hypothesis holds of the matching-cost model's volume**: where a disparity has no facing right column the
+    right window of the matching cost leaves the right image, and the cost is NaN (any measure; `ev` keeps NaN). -/
+theorem nanOutsideOK_of_mc (K : RunCfg) (G : AggCfg) (x : MC.Input) (h : Shape x)
+    (hg : gridMin x.dminG x.L.rows x.L.cols ≤ gridMax x.dmaxG x.L.rows x.L.cols) (hev : K.ev .nan = .nan) :
+    NanOutsideOK K G x := by
+  intro dsp hd
+  unfold Cbca.nanOutside
+  simp only [List.all_eq_true, List.mem_range, Bool.or_eq_true]
+  intro y _ xa _
+  by_cases hR : RightInside x ((xa + MC.half x.w : Nat) : Int) (gminOf x * (x.sp : Int) + (dsp : Int))
+  · left
+    obtain ⟨h1, h2⟩ := hR
+    rw [h.cols_eq] at h2
+    exact rightCol_isSome_of_rightInside x.sp h.sp_pos _ xa (MC.half x.w) x.L.cols h1 h2
+  · right
+    have hnan : (costVolume x ((y + MC.half x.w : Nat) : Int) ((xa + MC.half x.w : Nat) : Int) dsp).isNan = true := by
+      rw [C04C02.nan_iff_not_computable x h hg (y + MC.half x.w) (xa + MC.half x.w) dsp hd]
+      have hc := C04C02.computable_iff_cause x h (y + MC.half x.w) (xa + MC.half x.w) dsp
+      cases hcomp : Criteria.computable (C04C02.toCv x) (y + MC.half x.w) (xa + MC.half x.w) dsp
+      · rfl
+      · exact absurd ((cause_computable_iff x _ _ _).1 (hc.1 hcomp)).2.2.1 hR
+    show (K.ev (costVolume x ((y + MC.half x.w : Nat) : Int) ((xa + MC.half x.w : Nat) : Int) dsp)).isNan = true
+    cases hcv : costVolume x ((y + MC.half x.w : Nat) : Int) ((xa + MC.half x.w : Nat) : Int) dsp with
+    | nan => rw [hev]; rfl
+    | num q => rw [hcv] at hnan; cases hnan
+    | zn a b => rw [hcv] at hnan; cases hnan
+
 /-! ### crop run = whole run with aggregation -/
 
 theorem cbcaQ_crop (K : RunCfg) (G : AggCfg) {x x' : MC.Input} (hp : paramsOf x' = paramsOf x)
@@ -188,11 +297,11 @@ def runCbcaCone (K K' : RunCfg) (G : AggCfg) (CP : CrossCheck.Params) (x : MC.In
     K.doMedian CP
 
 /-- **Crop run = whole run for the arrays of the models, with cross-based aggregation.**  Hypotheses of
-    `run_crop_eq_whole`, plus C11's `nanOutside` for the four inputs of the aggregation. -/
+    `run_crop_eq_whole`; C11's `nanOutside` is discharged by `nanOutsideOK_of_mc` (the float reading `ev` of a cost cell
+    keeps NaN). -/
 theorem runCbca_crop_eq_whole (K K' : RunCfg) (G : AggCfg) (V : CrossCheck.Variant) (CP : CrossCheck.Params)
     (x x' : MC.Input) (r0 c0 : Nat) (hc : CropRun x x' r0 c0) (ok : RunOK K K' x) (ok' : RunOK K K' x')
-    (hN : NanOutsideOK K G x) (hNs : NanOutsideOK K' G (swapInput x))
-    (hN' : NanOutsideOK K G x') (hNs' : NanOutsideOK K' G (swapInput x'))
+    (hev : K.ev .nan = .nan) (hev' : K'.ev .nan = .nan)
     (out out' : Nat → Nat → CrossCheck.PixOut)
     (hout : fullRunCbca K K' G V CP x = some out) (hout' : fullRunCbca K K' G V CP x' = some out')
     (hin : ∀ A, afterFilterR K x (aggRow K G x) = some A → LeftInInterval CP x.L.rows x.L.cols A)
@@ -203,6 +312,10 @@ theorem runCbca_crop_eq_whole (K K' : RunCfg) (G : AggCfg) (V : CrossCheck.Varia
     out' r c = out (r + r0) (c + c0) := by
   have hsh := C02.shape_of_wf x ok.mc.wf
   have hshR := C02.shape_of_wf (swapInput x) ok.mcR.wf
+  have hN := nanOutsideOK_of_mc K G x hsh (C02.gridOK_of_wf x ok.mc.wf) hev
+  have hNs := nanOutsideOK_of_mc K' G (swapInput x) hshR (C02.gridOK_of_wf _ ok.mcR.wf) hev'
+  have hN' := nanOutsideOK_of_mc K G x' (C02.shape_of_wf x' ok'.mc.wf) (C02.gridOK_of_wf x' ok'.mc.wf) hev
+  have hNs' := nanOutsideOK_of_mc K' G (swapInput x') (C02.shape_of_wf _ ok'.mcR.wf) (C02.gridOK_of_wf _ ok'.mcR.wf) hev'
   have hRx := costRows_cbca K G x' ok'.mc hN'
   have hRx' := costRows_cbca K' G (swapInput x') ok'.mcR hNs'
   rw [cbcaQ_crop K G hc.params hc.gmin hc.gmax] at hRx
@@ -215,5 +328,73 @@ theorem runCbca_crop_eq_whole (K K' : RunCfg) (G : AggCfg) (V : CrossCheck.Varia
     (cbcaStep_equivariant _)
     (costRows_cbca K G x ok.mc hN) (costRows_cbca K' G (swapInput x) ok.mcR hNs) hRx hRx'
     out out' hout hout' hin hin' r c hr hcl hcone
+
+/-! ### Non-vacuity: a 3 × 11 sad pair (window 3, interval [-1, 0], `cbca_distance` 2, vfit, median 3, source block
+    splits) and its 3 × 10 crop starting at column 1: both runs return, every hypothesis of `runCbca_crop_eq_whole`
+    holds at crop pixel (1, 5) — (1, 6) of the whole — whose clipped cone (5 columns to the left, 4 to the right) lies
+    in the crop -/
+
+namespace RunCbcaExample
+open RunExample
+
+def exL : MC.Img := { rows := 3, cols := 11, px := fun r c => ((r * c + 2 * c + (c / 4) * 7 : Int) : Rat) }
+def exR : MC.Img := { rows := 3, cols := 11, px := fun r c => ((r * c + 2 * c + (c / 4) * 7 + r - 2 : Int) : Rat) }
+
+def exWhole : MC.Input where
+  meas := .sad
+  w := 3
+  sp := 1
+  L := exL
+  R := exR
+  mL := noMask
+  mR := noMask
+  dminG := fun _ _ => -1
+  dmaxG := fun _ _ => 0
+
+def exCrop : MC.Input :=
+  { exWhole with
+    L := { rows := 3, cols := 10, px := fun r c => exL.px r (c + 1) }
+    R := { rows := 3, cols := 10, px := fun r c => exR.px r (c + 1) } }
+
+def exG : AggCfg := { dist := 2, I := 5, mr := .loopVar }
+
+theorem exCropRun : CropRun exWhole exCrop 0 1 := by
+  refine ⟨rfl, ?_, by decide, by decide +kernel, by decide +kernel, by decide +kernel, by decide +kernel⟩
+  intro r c _ _
+  simp only [mcScene, exCrop, exWhole, exL, exR, noMask, Nat.add_zero]
+  push_cast
+  rfl
+
+theorem exCone : runCbcaCone exK exK' exG exCP exWhole = ⟨3, 3, 5, 4⟩ := by decide +kernel
+
+/-- both runs return -/
+example : (fullRunCbca exK exK' exG .asIs exCP exWhole).isSome = true
+    ∧ (fullRunCbca exK exK' exG .asIs exCP exCrop).isSome = true := by
+  constructor <;> decide +kernel
+
+theorem exIn : (afterFilterR exK exWhole (aggRow exK exG exWhole)).all (leftInIntervalB exCP 3 11) = true
+    ∧ (afterFilterR exK exCrop (aggRow exK exG exCrop)).all (leftInIntervalB exCP 3 10) = true := by
+  constructor <;> decide +kernel
+
+example (out out' : Nat → Nat → CrossCheck.PixOut)
+    (hout : fullRunCbca exK exK' exG .asIs exCP exWhole = some out)
+    (hout' : fullRunCbca exK exK' exG .asIs exCP exCrop = some out') :
+    out' 1 5 = out (1 + 0) (5 + 1) :=
+  runCbca_crop_eq_whole exK exK' exG .asIs exCP exWhole exCrop 0 1 exCropRun
+    (exOK exWhole rfl (by decide) (by decide) ⟨by decide, by decide⟩ ⟨by decide, by decide⟩)
+    (exOK exCrop rfl (by decide) (by decide) ⟨by decide, by decide⟩ ⟨by decide, by decide⟩)
+    rfl rfl out out' hout hout'
+    (fun A hA => leftInInterval_of_B _ _ _ A (by have := exIn.1; rw [hA] at this; exact this))
+    (fun A hA => leftInInterval_of_B _ _ _ A (by have := exIn.2; rw [hA] at this; exact this))
+    1 5 (by decide) (by decide)
+    (by
+      intro q hq
+      rw [exCone] at hq
+      unfold inCone at hq
+      unfold InRect InImage
+      simp only [exCrop, exWhole, exL] at *
+      omega)
+
+end RunCbcaExample
 
 end Pandora.C13
